@@ -4,6 +4,7 @@
 -/
 import Msmart.Model.Device
 import Msmart.Spec.DeviceSpec
+import Msmart.Lemmas.CodecEq
 
 set_option linter.unusedSimpArgs false
 
@@ -126,6 +127,20 @@ theorem setstate_injective (s₁ s₂ : Spec.DevState) (h₁ : s₁.Valid) (h₂
 theorem fan_out_of_range (s : SetState) (h : s.fan < 0 ∨ 255 < s.fan) :
     setStateBody s = .error (.py "ValueError") := by
   unfold setStateBody; rw [if_pos h]
+
+/-! ### the same statements about the code as translated from the source text (tie by translation) -/
+
+/-- **C10 about the translated `SetStateCommand.tobytes`** (`Generated/Codec.lean`, regenerated from the source on
+    every run): the body it builds for every settable state decodes, under the vendor layout, to that state. -/
+theorem setstate_roundtrip_code (s : Spec.DevState) (hv : s.Valid) :
+    ∃ body, CodecEq.setStateCode (setStateOfDev (devOf s)) = .ok body ∧
+      Spec.decodeSetState body = some s := by
+  rw [CodecEq.setStateBody_eq]; exact setstate_roundtrip s hv
+
+theorem setstate_injective_code (s₁ s₂ : Spec.DevState) (h₁ : s₁.Valid) (h₂ : s₂.Valid)
+    (h : CodecEq.setStateCode (setStateOfDev (devOf s₁)) = CodecEq.setStateCode (setStateOfDev (devOf s₂))) :
+    s₁ = s₂ := by
+  rw [CodecEq.setStateBody_eq, CodecEq.setStateBody_eq] at h; exact setstate_injective s₁ s₂ h₁ h₂ h
 
 /-! non-vacuity -/
 example : (⟨true, false, 2, 41, 102, 0xC, true, false, true, false, true, false, true, 55, 2⟩ : Spec.DevState).Valid := by
